@@ -674,8 +674,21 @@ def check(prop, tier, seed):
         else:
             crosschecks = vpkani.run_rlp_conformance()
             json.dump(crosschecks, open(kf, 'w'))
+    if tier == 'thorough' and prop in vpkani.B64_PROPS:
+        hk = hashlib.sha256()
+        for pth in [os.path.join(D.REPO, 'Cargo.lock'), os.path.join(D.VERIF, 'kani', 'b64_conformance.rs'), os.path.join(D.VERIF, 'lib', 'vpkani.py')]:
+            if os.path.exists(pth):
+                hk.update(open(pth, 'rb').read())
+        kf = os.path.join(CACHE, 'kani_b64_%s.json' % hk.hexdigest()[:16])
+        if os.path.exists(kf):
+            cc2 = json.load(open(kf))
+        else:
+            cc2 = vpkani.run_b64_conformance()
+            json.dump(cc2, open(kf, 'w'))
+        crosschecks = crosschecks + cc2
+    if tier == 'thorough' and crosschecks:
         if any(c['status'] == 'fail' for c in crosschecks):
-            undecided('an ASSUMED alloy-rlp contract was refuted by its Kani cross-check: ' + '; '.join(c['harness'] for c in crosschecks if c['status'] == 'fail'))
+            undecided('an ASSUMED dependency contract (alloy-rlp / base64) was refuted by its Kani cross-check: ' + '; '.join(c['harness'] for c in crosschecks if c['status'] == 'fail'))
 
     findings = [k for k in load_findings() if k['property'] == prop]
     known_labels = set(k['obligation'] for k in findings)
